@@ -192,10 +192,17 @@ func (s *Settings) merge(other *Settings) {
 			if !isNilish(otherFieldValue) {
 				setUnexportedField(sField, otherFieldValue)
 			}
+		} else if field.Type.Kind() == reflect.Slice {
+			// A slice that the other source does not provide (nil, or without any
+			// entry) must not erase a value an earlier source configured, e.g.
+			// -trustedProxyCIDRs on the command line with PITHOS_TRUSTED_PROXY_CIDRS
+			// unset would otherwise end up as "no list" = trust every proxy.
+			if otherField.Len() > 0 {
+				setUnexportedField(sField, getUnexportedField(otherField))
+			}
 		} else {
 			otherFieldValue := getUnexportedField(otherField)
 			setUnexportedField(sField, otherFieldValue)
-
 		}
 	}
 }
